@@ -203,3 +203,16 @@ claim("C03", category="exploration", engine="raidmc",
            "one corrupted block is unlisted, scan returns exactly T within the unique decoding radius.",
       note="built by a sub-agent under my specification and re-run by me; only genuine erasure patterns (survivors consistent)",
       design="3 C03")
+
+claim("C18", category="exploration", engine="bytemc (filter harness) + arraymc",
+      technique="exhaustive enumeration of rule lists x paths on the real filter functions (linked harness) against an oracle written from the manual, plus end-to-end and selection sweeps on the CLI",
+      text="Part 1: the real filter_alloc_file / filter_path / filter_subdir / filter_emptydir are called for ALL rule lists of length <=2 over 24 "
+           "patterns x 2 directions plus length 3 over a 12-pattern core (thorough: length 3 over all 24; 110 592 lists) and 11 invalid patterns, "
+           "on ALL 84 file paths and 20 directory paths of a 3-level tree; verdicts (and the composed directory walk scan performs) must equal "
+           "vp/rules.py: first matching rule decides, no match -> excluded iff the last rule is an include, name patterns against components of the "
+           "right kind, rooted patterns against the path from the disk root with * ? [] never crossing '/', directory patterns taking everything "
+           "below, escapes. Part 2: every single rule and 6 ordered pairs end to end through sync and the decoded content, with and without nohidden, "
+           "with content copies, a stale tmp and lock files on a data disk (never recorded). Part 3: all 64 combinations of -f (3 patterns) / -d / -m / "
+           "-e in check -v: the processed file set equals the prediction and nothing is written.",
+      note="cases where 'first match decides' and 'a directory pattern takes everything below' disagree are counted and not judged (manual ambiguous); fix's side of selection is C05's filter menu",
+      design="3 C18")
